@@ -58,3 +58,30 @@ claim("C09",
       "of factor ratios, recognition of arbitrary compound strings.",
       "decision-table extraction; regex AST (re._parser) analysis; rewrite-system extraction + bounded exhaustive check",
       "DESIGN.md#c09")
+
+claim("C02",
+      "Static decision that nixio keeps no state of its own between the API and HDF5 (necessary for close/reopen "
+      "equivalence): for all 63 accessor pairs, on every abstract path, the setter/deleter writes storage (or found "
+      "nothing to delete) and the getter reads every storage location (receiver, key) the setter writes; getters of "
+      "persistent attributes read storage on every path (no cached values); the hdf5 layer's attribute contract "
+      "(None deletes, else the value is stored under the given name) is checked on the layer's own decision table; "
+      "File.close/__exit__ reach h5py close on all normal paths; container classes never store to self outside "
+      "__init__. NOT decided: equality of the complete observable state before/after reopen, value encodings.",
+      "path-sensitive abstract interpretation of every accessor (storage-key extraction, must-write / must-read on all "
+      "paths)", "DESIGN.md#c02")
+claim("C12",
+      "Static decision for every public creating/mutating API member (about 180, resolved through the MRO, through "
+      "all resolved callees): no abstract path on which an observable storage write precedes a refusal whose guard "
+      "depends on the call's arguments; every such (API, first write, refusal) triple is either triaged as infeasible "
+      "/ rolled back with a reason (triage/c12.json) or is a recorded defect; the inventory of pre-write argument "
+      "refusals (176 API x exception-class pairs) must not shrink; the rollback handler of create_multi_tag deletes "
+      "exactly what was created. Loops are unrolled twice for small members. NOT decided: failures raised inside "
+      "h5py/NumPy after a write (no raise statement in the source).",
+      "interprocedural path-sensitive abstract interpretation (event order + taint of the refusing guard); frozen "
+      "refusal inventory", "DESIGN.md#c12")
+claim("C17",
+      "The property itself (everything written survives SIGKILL after flush/close) is a property of libhdf5 and the "
+      "OS and is NOT decided. Decided statically are its necessary conditions inside nixio: File.flush reaches "
+      "h5py File.flush on the file's own handle on every normal path; File.close reaches h5py File.close on every "
+      "normal path; nixio has no write-back layer (all 63 setters are write-through on every path, containers hold "
+      "no state).", "must-pass-through on all abstract paths; shared write-through rules of C02", "DESIGN.md#c17")
